@@ -47,6 +47,9 @@ def plan(prop):
             [(0, 1, True), (1, 1, True), (2, 1, True), (0, 2, True), (0, 3, True), (1, 2, True), (1, 1, False), (2, 1, False), (0, 2, False), (0, 3, False), (1, 2, False)]
         for k, n, closed in e2e:
             obs.append((core, lambda ctx, k=k, n=n, c=closed: co.ob_insertion_e2e(ctx, k, n, c)))
+        # alternative time windows per task: the activity that is returned / put into the shadow tour carries the CHOSEN window
+        for k, n in ([(0, 1), (0, 2)] if Q else [(0, 1), (0, 2), (1, 1)]):
+            obs.append((core, lambda ctx, k=k, n=n: co.ob_insertion_e2e(ctx, k, n, True, 16, 2)))
         for k, closed in ([(0, True), (1, True)] if Q else [(0, True), (1, True), (1, False), (2, True)]):
             obs.append((core, lambda ctx, k=k, c=closed: co.ob_insertion_e2e_both(ctx, k, c)))
         cap = [(0, 'single', True), (1, 'single', True), (0, 'shipment', True), (1, 'shipment', True), (1, 'single', False)] if Q else \
